@@ -417,6 +417,7 @@ package mail
 //@ at mail.msgWriter.addFiles mail.File.setHeader#2 before assert[C02:lemma-cte] nocrlf(arg2)
 //@ at mail.msgWriter.addFiles mail.File.setHeader#3 before assert[C02:lemma-desc] nocrlf(arg2)
 //@ at mail.msgWriter.addFiles mail.File.setHeader#4 before assert[C02:lemma-disp] nocrlf(arg2)
+//@ at mail.msgWriter.addFiles mail.File.getHeader#5 before assert[C02:lemma-untainted-so-far] !file.Header.hdrtaint
 //@ at mail.msgWriter.addFiles mail.File.setHeader#5 before assert[C02:lemma-cid-stripped] nocrlf(arg2)
 //@ at mail.msgWriter.addFiles mail.File.setHeader#6 before assert[C02:lemma-cid-default] nocrlf(arg2)
 
